@@ -3,6 +3,7 @@
 Oracle: vlib.indep.envmodel.check_digests_rec - mcbor byte spans + hashlib; independent of cbor2/cryptography.
 """
 import itertools
+import os
 import json
 
 from .. import drive
@@ -47,7 +48,28 @@ def _supplied(r, alg):
         d["suit-digest-bytes"] = r.randbytes(R.HASH_LEN[R.HASH_ALG[alg]]).hex()   # wrong value, right length
     else:
         d["suit-digest-bytes"] = r.randbytes(r.choice([1, 16, 31, 33, 64])).hex()
+    c = r.random()
+    if d["suit-digest-bytes"] and c < 0.3:
+        # source forms of the digest language carrying the same disagreeing value
+        if c < 0.18:
+            d["suit-digest-bytes"] = {"raw": d["suit-digest-bytes"]}
+        else:
+            path = os.path.join(_scratch(), f"supplied_{r.randrange(1 << 40):x}.bin")
+            with open(path, "wb") as fh:
+                fh.write(bytes.fromhex(d["suit-digest-bytes"]))
+            d["suit-digest-bytes"] = {"file_direct": path} if c < 0.25 else {"file": path}
     return d
+
+
+_scr = {}
+
+
+def _scratch():
+    if "d" not in _scr:
+        import tempfile
+        base = os.environ.get("VERIF_SCRATCH") or tempfile.gettempdir()
+        _scr["d"] = tempfile.mkdtemp(prefix="c01-supplied-", dir=base)
+    return _scr["d"]
 
 
 def _base(r):
